@@ -528,10 +528,175 @@ func run(r *core.Run) int {
 			r.Sample(mtName(c.MT), c.desc())
 		}
 	})
+	signedHere(r)
 	return r.Finish(r.Pick(1000, 10000),
 		core.Require{Counter: "accepted", Why: "no envelope accepted"},
 		core.Require{Counter: "rejected", Why: "no envelope rejected"},
 		core.Require{Counter: "attribute-sets-confirmed", Why: "no attribute set was compared"})
+}
+
+// SignedCase: the library signs a request whose extended attributes carry keys
+// of several Go types, and the attributes are read back from the object that
+// signed (which still holds the caller's values) and from the parsed bytes.
+type SignedCase struct {
+	MT, Scheme string
+	KeyTypes   []string // per attribute: text | int | int8 | int16 | int32 | int64 | negint
+	Critical   []bool
+	Expiry     bool
+}
+
+func (c SignedCase) desc() string {
+	return fmt.Sprintf("%s scheme=%s signed by the library: attribute key types %v critical %v expiry=%v", mtName(c.MT), c.Scheme, c.KeyTypes, c.Critical, c.Expiry)
+}
+
+func signedKey(typ string, i int) (any, string) {
+	n := int64(70001 + i)
+	switch typ {
+	case "text":
+		return fmt.Sprintf("io.example.attr%d", i), fmt.Sprintf("s:io.example.attr%d", i)
+	case "int":
+		return int(n), fmt.Sprintf("i:%d", n)
+	case "int8":
+		return int8(100 + i), fmt.Sprintf("i:%d", 100+i)
+	case "int16":
+		return int16(30001 + i), fmt.Sprintf("i:%d", 30001+i)
+	case "int32":
+		return int32(n), fmt.Sprintf("i:%d", n)
+	case "negint":
+		return int(-n), fmt.Sprintf("i:%d", -n)
+	}
+	return n, fmt.Sprintf("i:%d", n)
+}
+
+func normKey(k any) string {
+	switch x := k.(type) {
+	case string:
+		return "s:" + x
+	case int:
+		return fmt.Sprintf("i:%d", x)
+	case int8:
+		return fmt.Sprintf("i:%d", x)
+	case int16:
+		return fmt.Sprintf("i:%d", x)
+	case int32:
+		return fmt.Sprintf("i:%d", x)
+	case int64:
+		return fmt.Sprintf("i:%d", x)
+	case uint64:
+		return fmt.Sprintf("i:%d", x)
+	}
+	return fmt.Sprintf("?:%T:%v", k, k)
+}
+
+var signedChain = pki.SimpleChain("p256", 3, 2, "c13s")
+
+func signedHere(r *core.Run) {
+	var cases []*SignedCase
+	for _, mt := range []string{sims.JWS, sims.COSE} {
+		types := []string{"text"}
+		if mt == sims.COSE {
+			types = []string{"text", "int", "int8", "int16", "int32", "int64", "negint"}
+		}
+		for _, scheme := range []string{"notary.x509", "notary.x509.signingAuthority"} {
+			for n := 1; n <= 3; n++ {
+				for ti := range types {
+					for mask := 0; mask < 1<<n; mask++ {
+						c := &SignedCase{MT: mt, Scheme: scheme, Expiry: (mask+ti+n)%2 == 0}
+						for i := 0; i < n; i++ {
+							c.KeyTypes = append(c.KeyTypes, types[(ti+i*3)%len(types)])
+							c.Critical = append(c.Critical, mask&(1<<i) != 0)
+						}
+						cases = append(cases, c)
+					}
+				}
+			}
+		}
+	}
+	r.Set("signed_here_cases", len(cases))
+	r.Parallel(len(cases), func(i int) { executeSigned(r, cases[i]); r.Nontrivial(cases[i].desc()) })
+}
+
+func executeSigned(r *core.Run, c *SignedCase) {
+	signer, err := sims.NewLocal(signedChain)
+	if err != nil {
+		r.Count("unbuildable", 1)
+		return
+	}
+	req := sims.BaseRequest(c.MT, signer, signature.SigningScheme(c.Scheme))
+	if c.Expiry {
+		req.Expiry = sims.SignTime.AddDate(1, 0, 0)
+	}
+	want := map[string]bool{}
+	for i, t := range c.KeyTypes {
+		k, nk := signedKey(t, i)
+		req.ExtendedSignedAttributes = append(req.ExtendedSignedAttributes, signature.Attribute{Key: k, Critical: c.Critical[i], Value: fmt.Sprintf("value-%d", i)})
+		want[nk] = c.Critical[i]
+	}
+	env, _ := signature.NewEnvelope(c.MT)
+	var raw []byte
+	if p := core.Guard(func() { raw, err = env.Sign(req) }); p != nil || err != nil {
+		// whether this request must sign is C08's and C16's business
+		r.Count("signed-here-sign-refused", 1)
+		return
+	}
+	parsed, perr := signature.ParseEnvelope(c.MT, raw)
+	if perr != nil {
+		r.Count("signed-here-unparsable", 1)
+		return
+	}
+	fail := func(sig, what string) { r.Violation("signed-here:"+sig+":"+mtName(c.MT), c.desc()+": "+what, c) }
+	for _, src := range []struct {
+		name string
+		e    signature.Envelope
+	}{{"the object that signed", env}, {"the parsed bytes", parsed}} {
+		for _, via := range []string{"Verify", "Content"} {
+			var content *signature.EnvelopeContent
+			var cerr error
+			p := core.Guard(func() {
+				if via == "Verify" {
+					content, cerr = src.e.Verify()
+				} else {
+					content, cerr = src.e.Content()
+				}
+			})
+			r.Eval(1)
+			if p != nil || cerr != nil || content == nil {
+				r.Count("signed-here-read-failed", 1)
+				continue
+			}
+			got := content.SignerInfo.SignedAttributes.ExtendedAttributes
+			seen := map[string]bool{}
+			for _, a := range got {
+				nk := normKey(a.Key)
+				crit, ok := want[nk]
+				switch {
+				case !ok:
+					fail("unexpected-attribute", fmt.Sprintf("%s() on %s returns an attribute %s the request did not carry", via, src.name, nk))
+					return
+				case seen[nk]:
+					fail("attribute-twice", fmt.Sprintf("%s() on %s returns the attribute %s more than once", via, src.name, nk))
+					return
+				case crit != a.Critical:
+					fail("criticality", fmt.Sprintf("%s() on %s returns the attribute %s with critical=%v, the signer listed it with critical=%v", via, src.name, nk, a.Critical, crit))
+					return
+				}
+				seen[nk] = true
+				if ks, isText := a.Key.(string); isText {
+					// (the lookup takes a text key: integer-keyed attributes are reached by
+					// walking the list)
+					if la, lerr := content.SignerInfo.ExtendedAttribute(ks); lerr != nil || normKey(la.Key) != nk || la.Critical != crit {
+						fail("lookup", fmt.Sprintf("%s() on %s: looking up the attribute %s by its key returns %v / %v", via, src.name, nk, la, lerr))
+						return
+					}
+				}
+			}
+			if len(seen) != len(want) {
+				fail("attribute-missing", fmt.Sprintf("%s() on %s returns %d of the %d attributes the request carried", via, src.name, len(seen), len(want)))
+				return
+			}
+			r.Count("signed-here-attribute-sets-confirmed", 1)
+		}
+	}
 }
 
 func replay(r *core.Run, path string) int {
@@ -539,6 +704,12 @@ func replay(r *core.Run, path string) int {
 	if err := core.LoadReplay(path, &c); err != nil {
 		fmt.Println("replay:", err)
 		return core.ExitInconclusive
+	}
+	var sc SignedCase
+	if err := core.LoadReplay(path, &sc); err == nil && len(sc.KeyTypes) > 0 {
+		fmt.Println("case:", sc.desc())
+		executeSigned(r, &sc)
+		return r.Finish(0)
 	}
 	fmt.Println("case:", c.desc())
 	execute(r, &c)
